@@ -59,7 +59,7 @@ def _job(args):
             for mp in dirs:
                 r = scan.real_scan(base, root, mp)
                 out["n"] += 1
-                case = dict(dirs=[list(d) for d in dirs], files={scan.dotted(f): (scan.render_file(v["body"]) if v["py"] else None) for f, v in files.items()}, module_path=list(mp))
+                case = dict(dirs=[list(d) for d in dirs], files={scan.dotted(f): (scan.render_v(v) if v["py"] else None) for f, v in files.items()}, module_path=list(mp))
                 if r[0] != "OK":
                     out["violations"].append((dict(case, error=r[1]), f"scan of module_path {scan.dotted(mp)} failed: {r[1]}", {"kind": "scan_error"}))
                     continue
